@@ -80,6 +80,8 @@ def run(args, seed, t_start):
     r.generate()
     lemmas = r.lemmas()
     scans = r.framescans()
+    if prop == 'C16':
+        scans = c16_second_tier(scans, r, tier, seed, args.jobs)
     head, dirty = r.sources.git_state()
 
     # ---- queries ----------------------------------------------------------------------------------
@@ -252,6 +254,47 @@ def run(args, seed, t_start):
         write_evidence(prop, tier, seed, r, per_oblig, n_oblig - n_known, discharged, violations, undecided, known_hits, backends,
                        solver_seconds, wall, head, dirty, cover_stats, lemma_names, exit_code, sim)
     return exit_code
+
+
+def c16_second_tier(scans, r, tier, seed, jobs):
+    """C16, pairs whose normal forms differ (contracts/twins.py): decide the pair by its shared contract instead -- generate every
+    obligation of that contract, for every property it carries, for both twins, and add them to this run under
+    `C16/<pair>/shared-contract[<prop>]/...`.  No contract on the pair: undecided."""
+    out = []
+    for name, problems, doc in scans:
+        differ = [p for p in problems if p.startswith('normal forms differ')]
+        if not differ or not name.endswith('twin-normal-forms-equal[sync]'):
+            out.append((name, problems, doc))
+            continue
+        pair = name.split('/')[1]
+        keys = [k for k, c in dsl.CONTRACTS.items() if c.real and not c.trusted and c.real.get('sync', '').split(':')[-1] == pair
+                and c.real.get('sync', '').split(':')[0] in ('adb_device',) and 'async' in c.real]
+        rest = [p for p in problems if p not in differ]
+        if not keys:
+            r.undecided.append((name, differ[0] + '; the pair has no contract to decide it by'))
+            if rest:
+                out.append((name, rest, doc))
+            continue
+        n_added = 0
+        for key in keys:
+            c = dsl.CONTRACTS[key]
+            for p in sorted(c.props):
+                rr = driver.Run(p, tier, seed, jobs=jobs, only=['=' + key])
+                rr.generate()
+                for o in rr.obligations:
+                    o.name = 'C16/%s/shared-contract[%s]/%s' % (pair, p, o.name)
+                    r.obligations.append(o)
+                    n_added += 1
+                for what, why in rr.undecided:
+                    r.undecided.append(('C16/%s/shared-contract[%s]/%s' % (pair, p, what), why))
+                r.functions.extend(f for f in rr.functions if f not in r.functions)
+                r.used_axioms.update(rr.used_axioms)
+                r.sf_axioms.update(rr.sf_axioms)
+                r.stats['paths'] += rr.stats['paths']
+        print('C16 note: %s -- %s; decided by the shared contract of the pair (%d obligations over both twins)' % (pair, differ[0], n_added))
+        out.append((name.replace('twin-normal-forms-equal', 'twins-differ-textually;decided-by-shared-contract'), rest,
+                    'normal forms differ; both twins are checked against the same contract instead'))
+    return out
 
 
 def trusted_base(r):
